@@ -72,6 +72,15 @@ def build_shape(w, t):
     return w.app(k, *[build_shape(w, x) for x in t[1:]])
 
 
+class TypedWorld(World):
+    """Every constructed node goes through the interpreted type checker, as create_node does: an ill-typed
+    construction raises (PysmtTypeError) instead of yielding a node."""
+
+    def __init__(self, *a, **k):
+        World.__init__(self, *a, **k)
+        self.typecheck = True
+
+
 def setup_env(w):
     """Environment services interpreted from the real classes."""
     it = w.it
